@@ -122,7 +122,7 @@ theorem vw_hash_val (k v : Ty) (r : Rng) :
     with the declared types at positions below MaxInt64 only). -/
 def Ty.TD (sfh : Bool) (t : Ty) : Prop :=
   match t with
-  | .unit => False
+  | .unit | .callable _ _ _ => False
   | .struct ms => sfh = false ∧ NamesNodup ms ∧ ∀ m, ∀ (_ : m ∈ ms), Ty.TD sfh m.2.2
   | .tuple ts _ => ((ts.length : Int) ≤ I64.max) ∧ ∀ t', ∀ (_ : t' ∈ ts), Ty.TD sfh t'
   | .array e _ => Ty.TD sfh e
